@@ -8,13 +8,20 @@ _maybe_bind_template(context, template) binds only when nothing is bound and res
 """
 import z3
 
-import contracts.c06 as c06
 from contracts.stubs_django import CTX, LAYER, LAYERS
 from pyvc import ops
-from pyvc.contracts import REG, Any_, Bool, Obj, Opt, Ref, Str
+from pyvc.contracts import REG, Any_, Bool, Obj, Opt, Ref, Seq, Str
 from pyvc.interp import ExcVal, PyRaise
 from pyvc.types import NONE, Conc, TAny, TBool, TObj, TOpt, TStr, Val
 
+class _C06:
+    """contracts.c06, resolved at use (c06 -> c05 -> c03 -> c06b is an import cycle)"""
+    def __getattr__(self, name):
+        import contracts.c06 as m
+        return getattr(m, name)
+
+
+c06 = _C06()
 P = ("C03", "C06")
 COMP = "django_components.component"
 TPL = Obj("Template")
@@ -72,12 +79,13 @@ REG.contract(
     requires=[lambda c: c["context"].t > 0, lambda c: z3.Length(_dicts(c)) >= 1],
     modifies=[f"{CTX}.template", f"{CTX}.dicts"], raises={"Any": None},
     ensures={"binding_restored": lambda c: _bound(c) == _bound(c, True)},
-    xensures={"Any": {"binding_restored_on_error": lambda c: _bound(c) == _bound(c, True), "the_original_exception_object_propagates": c06._same_exception}},
+    xensures={"Any": {"binding_restored_on_error": lambda c: _bound(c) == _bound(c, True), "the_original_exception_object_propagates": (lambda c: c06._same_exception(c))}},
 )
 
 
 # ---- _prepare_template
-META = c06.META
+META = Obj("MetadataItem")
+STACK = Seq(META)
 REG.stub(("getattr", "MetadataItem", "render_id"), lambda run, obj, node: Val(TStr, ops.uf("metadata_render_id", META.sort(), z3.StringSort())(obj.t)))
 REG.stub(("method", "RenderContext", "get"), lambda run, obj, args, kwargs, node: Val(TAny, TAny.fresh("render_context_value")))
 REG.stub(("setattr", "Template", "_djc_is_component_nested"), lambda run, obj, v, node: None)   # a flag on the Template object (C10), not on the Context
@@ -99,14 +107,14 @@ def _with_metadata_cm(run, args, kwargs, node):
     comp = run.call_frame.lookup("component")
     item = run.coerce(args[0], META)
     st = run.load_field(comp.t, "Component", "_metadata_stack")
-    run.store_field(comp.t, "Component", "_metadata_stack", Val(c06.STACK, z3.Concat(st.t, z3.Unit(item.t))))
+    run.store_field(comp.t, "Component", "_metadata_stack", Val(STACK, z3.Concat(st.t, z3.Unit(item.t))))
 
     def enter():
         return NONE
 
     def exit_(exc):
         cur = run.load_field(comp.t, "Component", "_metadata_stack").t
-        run.store_field(comp.t, "Component", "_metadata_stack", Val(c06.STACK, z3.Extract(cur, 0, z3.Length(cur) - 1)))
+        run.store_field(comp.t, "Component", "_metadata_stack", Val(STACK, z3.Extract(cur, 0, z3.Length(cur) - 1)))
         return False
     return Conc(("cm", enter, exit_))
 
@@ -161,7 +169,7 @@ REG.contract(
     raises={"Any": None, "RuntimeError": None},
     ensures={"context_binding_and_metadata_stack_restored": _restored, "no_other_context_touched": _others},
     xensures={"Any": {"context_binding_and_metadata_stack_restored_on_error": _restored, "no_other_context_touched": _others,
-                      "the_original_exception_object_propagates": c06._same_exception},
+                      "the_original_exception_object_propagates": (lambda c: c06._same_exception(c))},
               "RuntimeError": {"context_binding_and_metadata_stack_restored_on_error": _restored}},
 )
 
@@ -208,3 +216,6 @@ def _replay_prepare_template(model, ob):
                 return {"confirmed": True, "function": "_prepare_template", "inputs": {"context_data": data, "body": "raise KeyError" if fail else "pass"},
                         "expected": "caller's layers + one data layer while rendering; everything restored afterwards", "observed": what}
     return {"confirmed": False}
+
+
+import contracts.c06  # noqa: E402,F401  (heap class Component, exception model)
